@@ -186,7 +186,7 @@ class Explorer:
                 out[name] = list(val)
         return out
 
-    def execute(self, prefix, stack=None, collect=True, followups=None):
+    def execute(self, prefix, stack=None, collect=True, followups=None, record=False):
         """Replay `prefix`, then continue with the default policy, expanding new states."""
         self.runs += 1
         store = self._new_store()
@@ -221,8 +221,59 @@ class Explorer:
                     S.yield_point(("fs", op, token))
         ctx.before = before
 
+        raw = []
+        sec_open = {}
+
+        def lists_now():
+            return {nm: list(v) for nm, v in vars(store).items()
+                    if isinstance(v, list) and "locked" in nm}
+
+        def on_lock(kind, tid, name):
+            if kind == "acquire":
+                raw.append({"t": tid, "op": "sec", "lock": name, "before": lists_now(), "out": None})
+                sec_open[tid] = len(raw) - 1
+            elif kind == "wakeup":
+                raw.append({"t": tid, "op": "wakeup", "cond": name, "before": lists_now(), "out": None})
+                sec_open[tid] = len(raw) - 1
+            elif kind == "wait":
+                i = sec_open.pop(tid, None)
+                if i is not None:
+                    raw[i]["out"] = "wait"
+            elif kind == "release":
+                i = sec_open.pop(tid, None)
+                if i is not None and raw[i]["out"] is None:
+                    b, a = raw[i]["before"], lists_now()
+                    out = "peek"
+                    for nm in a:
+                        if len(a[nm]) > len(b.get(nm, [])):
+                            out = "claim"
+                        elif len(a[nm]) < len(b.get(nm, [])):
+                            out = "release"
+                    raw[i]["out"] = out
+        if record:
+            S.on_lock = on_lock
+
+        def content_of(path, kind):
+            try:
+                with open(path, "rb") as f:
+                    txt = f.read().decode("utf-8", "replace")
+            except OSError:
+                return []
+            if kind == "pidref":
+                return [self.inst.cid_rev.get(txt, "junk")]
+            lines = txt.split("\n")
+            if lines and lines[-1] == "":
+                lines = lines[:-1]
+            return [self.inst.pidstr_rev.get(x, "junk") for x in lines]
+
         def after(op, token, n, out, paths=()):
             t = sched.current()
+            if record and t is not None:
+                e = {"t": t.tid, "op": op, "tok": token, "out": out}
+                if op in ("open:r", "open:rw") and out == "ok" and token and \
+                        token[0][0] in ("pidref", "cidref"):
+                    e["val"] = content_of(paths[0], token[0][0])
+                raw.append(e)
             if t is not None:
                 t.hist.append((op, token, out))
                 if op == "flock" and out == "ok":
@@ -383,7 +434,7 @@ class Explorer:
                 facts[tid] = "object_removed_before_store_tagging" if removal < tag_start \
                     else "object_removed_after_store_tagging"
         rec = {"outcome": outcome, "results": results, "final": final_abs, "junk": junk,
-               "facts": facts,
+               "facts": facts, "raw": raw if record else None,
                "locks": locks, "schedule": list(sched_taken), "pending": pend,
                "trace": [(tid, tok) for tid, tok in S.trace]}
         return rec
